@@ -5,7 +5,7 @@ ID = "C18"
 HARNESSES = [dict(name="upgrade", pkg="./pkg/upgrade/", test="TestVerifC18", timeout=900,
                   files=[("pkg/upgrade/zz_verif_c18_test.go", "harness/C18/zz_verif_c18_test.go")])]
 VARIANTS = ["repaired"]   # = /repo HEAD (all five repairs committed); any old behaviour matches nothing = VIOLATION
-MODEL_NEEDS_IMPL = False
+MODEL_NEEDS_IMPL = True   # only for one may-reject input class: an archive that repeats a member name (see ocaml/C18_run.ml)
 RULE = ("history cases: an installed tree of 5 artifact paths (absent / regular incl. empty, modes incl. setuid, setgid, "
         "sticky, 0 / symlink to a regular file outside the artifact dirs, to another artifact path, chains through "
         "auxiliary symlinks, loops, to a directory, dangling / directory) plus 5 auxiliary nodes outside the artifact dirs; "
